@@ -62,7 +62,15 @@ func intRange(k string) (lo, hi int64, umax uint64, unsigned bool) {
 	return 0, 0, math.MaxUint64, true
 }
 
-type gen struct{ r *core.RNG }
+type gen struct {
+	r          *core.RNG
+	composites []string // named composite types the random types draw from (nil: namedComposite)
+}
+
+// the C10 stream also draws the struct types of other packages that hold slices and maps, and the own-package types with
+// fields of them (GenPair, used by another check, keeps the shorter list)
+var namedCompositeC10 = append(append([]string{}, namedComposite...), "c10types.Sealed", "c10types.Vault", "c10types.Box", "c10types.Wrap",
+	"pem.Block", "asn1.RawValue", "asn1.BitString", "pkix.AlgorithmIdentifier", "pkix.Extension", "net.IPNet")
 
 func (g *gen) scalarType() TypeJ {
 	switch k := g.r.Intn(10); {
@@ -106,6 +114,9 @@ func (g *gen) typ(depth int, underPtr bool) TypeJ {
 	case k < 4:
 		return g.scalarType()
 	case k < 6:
+		if g.composites != nil {
+			return nm(core.Pick(g.r, g.composites))
+		}
 		return nm(core.Pick(g.r, namedComposite))
 	case k < 9:
 		if underPtr {
@@ -659,8 +670,8 @@ func hasContainer(u *TypeJ) bool {
 }
 
 func generate(r *core.RNG, tier string) []json.RawMessage {
-	g := &gen{r: r}
-	out := append(append(corner(), ladder()...), floatTies()...)
+	g := &gen{r: r, composites: namedCompositeC10}
+	out := append(append(append(corner(), ladder()...), floatTies()...), hollow()...)
 	n := 260
 	if tier == "thorough" {
 		n = 6000
@@ -676,6 +687,10 @@ func generate(r *core.RNG, tier string) []json.RawMessage {
 		}
 		if g.r.Chance(7) {
 			out = append(out, g.tie())
+			continue
+		}
+		if g.r.Chance(8) {
+			out = append(out, g.hollowOne())
 			continue
 		}
 		out = append(out, g.one(1+g.r.Intn(4)))
@@ -889,6 +904,200 @@ func (g *gen) tie() json.RawMessage {
 	}
 	self := selfMain
 	if g.r.Chance(40) {
+		self = selfTypes
+	}
+	via := "value"
+	if g.r.Chance(30) {
+		via = "sprintf"
+	}
+	return mk(t, v, self, via, "")
+}
+
+// ---- struct fields that are not the zero value and still render nothing ----
+//
+// A struct-typed field none of whose exported fields is rendered is omitted from the literal, and the type literal of an
+// omitted field is never written: none of its packages may be imported.  "Renders nothing" is a recursive notion (every
+// field is empty for reflectx.IsEmptyValue - nil OR EMPTY slices and maps included - or is itself such a struct); it is
+// not reflect's IsZero (an empty non-nil slice or map is not zero), not IsEmptyValue of the struct, and not a test of the
+// first level only.  The family: a field of a struct type of another package - a package nothing else in the file
+// mentions, so the outer type is a NAMED type - whose value holds nothing but empty non-nil (or nil) slices and maps,
+// 1..3 struct levels below the field (Sealed.Blk.Headers, Sealed.Alg.Parameters.Bytes, Vault.S.Alg.Parameters.Bytes),
+// every single slice/map of it empty-non-nil in turn and all of them together, the holder at top level, as slice element,
+// array element, map value, behind a pointer and in fields of unnamed structs, rendered for both target packages;
+// next to each: the same shape with every slice/map nil (the zero field) and with one of them holding an element.
+
+// paths of the slices and maps inside t that are reached through struct fields only
+func hollowSlots(t *TypeJ, prefix []int, acc *[][]int) {
+	u := under(t)
+	switch u.K {
+	case "slice", "map":
+		*acc = append(*acc, append([]int{}, prefix...))
+	case "struct":
+		for i := range u.Fields {
+			hollowSlots(&u.Fields[i].T, append(prefix, i), acc)
+		}
+	}
+}
+
+// the zero value of t with the slot at path set by f
+func withSlot(t *TypeJ, v ValJ, path []int, f func(t *TypeJ) ValJ) ValJ {
+	if len(path) == 0 {
+		return f(t)
+	}
+	u := under(t)
+	w := v
+	w.L = append([]ValJ{}, v.L...)
+	w.L[path[0]] = withSlot(&u.Fields[path[0]].T, v.L[path[0]], path[1:], f)
+	return w
+}
+
+func emptyNonNil(t *TypeJ) ValJ {
+	if under(t).K == "map" {
+		return ValJ{M: [][2]ValJ{}}
+	}
+	return ValJ{L: []ValJ{}}
+}
+
+func oneElement(t *TypeJ) ValJ {
+	u := under(t)
+	if u.K == "map" {
+		return ValJ{M: [][2]ValJ{{nonzero(u.Key, false), nonzero(u.Elem, false)}}}
+	}
+	return lval(nonzero(u.Elem, false))
+}
+
+var hollowHolders = []string{"c10types.Sealed", "c10types.Vault"}
+
+// ways to place a holder value below the rendered value
+var hollowPlaces = []string{"top", "slice", "map", "ptr", "array", "field", "field-ptr", "slice-ptr", "map-slice"}
+
+func placeHollow(place string, t TypeJ, v ValJ) (TypeJ, ValJ) {
+	wrap := func(kind string) {
+		t = wrapT(kind, t)
+		v = wrapV(&t, v)
+	}
+	switch place {
+	case "slice", "map", "ptr", "array":
+		wrap(place)
+	case "field":
+		wrap("struct2")
+	case "field-ptr":
+		wrap("ptr")
+		wrap("struct2")
+	case "slice-ptr":
+		wrap("ptr")
+		wrap("slice")
+	case "map-slice":
+		wrap("slice")
+		wrap("map")
+	}
+	return t, v
+}
+
+func hollow() []json.RawMessage {
+	var out []json.RawMessage
+	k := 0
+	add := func(note string, t TypeJ, v ValJ) {
+		self, via := selfMain, "value"
+		if k%2 == 1 {
+			self = selfTypes
+		}
+		if k%3 == 2 {
+			via = "sprintf"
+		}
+		t, v = placeHollow(hollowPlaces[k%len(hollowPlaces)], t, v)
+		out = append(out, mk(t, v, self, via, note))
+		k++
+	}
+	for _, name := range hollowHolders {
+		t := nm(name)
+		var slots [][]int
+		hollowSlots(&t, nil, &slots)
+		z := zeroVal(&t)
+		// every slice / map below the holder's struct fields, one at a time: empty non-nil (renders nothing), then with an element
+		for _, p := range slots {
+			if len(p) < 2 && name == "c10types.Vault" {
+				continue // Vault.Exts / Vault.ByName are fields of the rendered type itself, not of a struct-typed field
+			}
+			add(fmt.Sprintf("hollow: %s, the slice/map at field path %v empty but not nil, all else zero", name, p), t, withSlot(&t, z, p, emptyNonNil))
+			if k%4 == 0 {
+				add(fmt.Sprintf("control: %s, the slice/map at field path %v holds one element", name, p), t, withSlot(&t, z, p, oneElement))
+			}
+		}
+		// all of them empty non-nil; all but the scalar N/Name zero
+		all := z
+		for _, p := range slots {
+			all = withSlot(&t, all, p, emptyNonNil)
+		}
+		for i := 0; i < len(hollowPlaces); i++ {
+			add("hollow: "+name+", every slice/map empty but not nil", t, all)
+		}
+		add("control: "+name+", the zero value", t, z)
+	}
+	// the foreign struct types directly as fields of an unnamed struct (their packages are mentioned by the type literal) and
+	// of the own-package holder next to a field that IS rendered
+	for _, name := range []string{"pem.Block", "asn1.RawValue", "asn1.BitString", "pkix.AlgorithmIdentifier", "pkix.Extension", "net.IPNet"} {
+		ft := nm(name)
+		var slots [][]int
+		hollowSlots(&ft, nil, &slots)
+		fv := zeroVal(&ft)
+		for _, p := range slots {
+			fv = withSlot(&ft, fv, p, emptyNonNil)
+		}
+		add("hollow: "+name+" itself, every slice/map below it empty but not nil", ft, fv)
+		add("hollow field of "+name+" in an unnamed struct", structT(fld("N", sc("int")), fld("F", ft)), lval(ival(1), fv))
+		add("hollow elements / values / pointee of "+name, structT(fld("S", sliceT(ft)), fld("M", mapT(sc("string"), ft)), fld("P", ptrT(ft))),
+			lval(lval(fv), ValJ{M: [][2]ValJ{{sval("k"), fv}}}, pval(fv)))
+	}
+	st := nm("c10types.Sealed")
+	sv := zeroVal(&st)
+	sv = withSlot(&st, sv, []int{2, 1}, emptyNonNil) // Blk.Headers
+	sv = withSlot(&st, sv, []int{4}, func(*TypeJ) ValJ { return ival(5) })
+	add("hollow field next to a rendered one: Sealed{Blk: {Headers: {}}, N: 5}", st, sv)
+	sv = withSlot(&st, sv, []int{1, 0}, oneElement) // Sig.Bytes
+	add("hollow field next to a rendered field of another package: Sealed{Sig: {Bytes: {7}}, Blk: {Headers: {}}, N: 5}", st, sv)
+	return out
+}
+
+// hollowVal: zero scalars, nil pointers; every slice/map nil or empty non-nil; with probability fill %, one of them gets an element
+func (g *gen) hollowVal(t *TypeJ, fill int) ValJ {
+	var slots [][]int
+	hollowSlots(t, nil, &slots)
+	v := zeroVal(t)
+	for _, p := range slots {
+		if g.r.Chance(60) {
+			v = withSlot(t, v, p, emptyNonNil)
+		}
+	}
+	if len(slots) > 0 && g.r.Chance(fill) {
+		v = withSlot(t, v, core.Pick(g.r, slots), oneElement)
+	}
+	return v
+}
+
+// a random member of the family
+func (g *gen) hollowOne() json.RawMessage {
+	var t TypeJ
+	switch g.r.Intn(4) {
+	case 0, 1:
+		t = nm(core.Pick(g.r, hollowHolders))
+	case 2:
+		t = structT(fld("N", sc("int")), fld("F", nm(core.Pick(g.r, []string{"c10types.Sealed", "c10types.Vault", "pem.Block", "asn1.RawValue", "pkix.AlgorithmIdentifier", "net.IPNet"}))))
+	default:
+		t = nm(core.Pick(g.r, []string{"pem.Block", "asn1.RawValue", "asn1.BitString", "pkix.AlgorithmIdentifier", "pkix.Extension", "net.IPNet"}))
+		t = structT(fld("A", t), fld("H", nm(core.Pick(g.r, hollowHolders))))
+	}
+	v := g.hollowVal(&t, 25)
+	for d := g.r.Intn(4); d > 0; d-- {
+		k := core.Pick(g.r, []string{"slice", "struct", "struct2", "map", "ptr", "array"})
+		if k == "ptr" && t.K == "ptr" {
+			k = "slice"
+		}
+		t = wrapT(k, t)
+		v = wrapV(&t, v)
+	}
+	self := selfMain
+	if g.r.Chance(50) {
 		self = selfTypes
 	}
 	via := "value"
